@@ -83,6 +83,7 @@ class AutoWorld(ReqWorld):
             "r0": {"origin": S["M1"], "destination": S["N2"]},
             "r1": {"origin": S["A"], "destination": S["M2"]},
             "r3": {"origin": S["N1"], "destination": S["M1"]},
+            "r4": {"origin": S["X3"], "destination": S["M1"]},  # in ANOTHER search cell: the human driver's "busiest cell" differs between states
         }
         self.request_specs = {k: dict(v, fleet_id=None) for k, v in specs.items() if k in tuple(requests)}
         self.rate_structure = RequestRateStructure(base_price=1.37, price_per_mile=0.73, minimum_price=0.5)
